@@ -80,22 +80,27 @@ def host_has(*feats):
 _AM = {}
 
 
-def am():
-    if not _AM:
+def am(mode="x64"):
+    if mode not in _AM:
         fresh_amoco()
-        from amoco.arch.x64 import cpu_x64 as cpu
-        from amoco.arch.x64 import env
         from amoco.cas.mapper import mapper
         from amoco.cas import expressions as ex
-        _AM.update(cpu=cpu, env=env, mapper=mapper, ex=ex,
-                   R=[env.rax, env.rcx, env.rdx, env.rbx, env.rsp, env.rbp, env.rsi, env.rdi, env.r8, env.r9, env.r10,
-                      env.r11, env.r12, env.r13, env.r14, env.r15])
-    return _AM
+        if mode == "x64":
+            from amoco.arch.x64 import cpu_x64 as cpu
+            from amoco.arch.x64 import env
+            R = [env.rax, env.rcx, env.rdx, env.rbx, env.rsp, env.rbp, env.rsi, env.rdi, env.r8, env.r9, env.r10,
+                 env.r11, env.r12, env.r13, env.r14, env.r15]
+            _AM[mode] = dict(cpu=cpu, env=env, mapper=mapper, ex=ex, R=R, flags=env.rflags, ip=env.rip, w=64)
+        else:
+            from amoco.arch.x86 import cpu_x86 as cpu
+            from amoco.arch.x86 import env
+            R = [env.eax, env.ecx, env.edx, env.ebx, env.esp, env.ebp, env.esi, env.edi]
+            _AM[mode] = dict(cpu=cpu, env=env, mapper=mapper, ex=ex, R=R, flags=env.eflags, ip=env.eip, w=32)
+    return _AM[mode]
 
 
 def const_of(e):
     """integer value of an expression made of constants (possibly a comp of constants), else None"""
-    ex = am()["ex"]
     try:
         e = e.simplify()
     except Exception:
@@ -121,8 +126,8 @@ def const_of(e):
     return None
 
 
-def amoco_decode(code):
-    a = am()
+def amoco_decode(code, mode="x64"):
+    a = am(mode)
     d = a["cpu"].disassemble
     try:
         i = d(code)
@@ -135,15 +140,15 @@ def amoco_decode(code):
     return i
 
 
-def amoco_run(i, regs, flags, mem):
+def amoco_run(i, regs, flags, mem, mode="x64"):
     """→ dict(regs=[int|str], flags={name:int|str}, mem=bytes|None, bad_mem=[offsets], rip=int|str) or {"raise":..}"""
-    a = am()
-    ex, env = a["ex"], a["env"]
+    a = am(mode)
+    ex, env, w = a["ex"], a["env"], a["w"]
     m = a["mapper"]()
     for r, v in zip(a["R"], regs):
-        m[r] = ex.cst(v, 64)
-    m[env.rflags] = ex.cst(flags | 2, 64)
-    m[env.rip] = ex.cst(CODE_ADDR, 64)
+        m[r] = ex.cst(v & ((1 << w) - 1), w)
+    m[a["flags"]] = ex.cst(flags | 2, w)
+    m[a["ip"]] = ex.cst(CODE_ADDR, w)
     m.mmap.write(WIN_ADDR, mem)
     try:
         i(m)
@@ -158,7 +163,7 @@ def amoco_run(i, regs, flags, mem):
             e = m(getattr(env, k))
             v = const_of(e)
             out["flags"][k] = v if v is not None else ("top" if e._is_top or not e._is_def else "sym:" + str(e)[:40])
-        v = const_of(m(env.rip))
+        v = const_of(m(a["ip"]))
         out["rip"] = v if v is not None else "sym"
         parts = m.mmap.read(WIN_ADDR, WIN)
         buf, bad = bytearray(), []
@@ -190,6 +195,10 @@ CC = ["O", "NO", "B", "NB", "Z", "NZ", "BE", "NBE", "S", "NS", "P", "NP", "L", "
 ALL6 = set(STATUS)
 
 
+class NotInMode(Exception):
+    pass
+
+
 class Enc(object):
     """one generated instruction: bytes + what the SDM leaves undefined + how to steer registers"""
 
@@ -212,9 +221,11 @@ def imm_bytes(r, n):
 
 
 class Gen(object):
-    def __init__(self, r, have):
+    def __init__(self, r, have, ia32=False):
         self.r = r
         self.have = have
+        self.ia32 = ia32            # only encodings whose bytes and meaning are the same in 32- and 64-bit mode
+        self.nreg = 8 if ia32 else 16
 
     # -- operand encoding --------------------------------------------------------------------
     def opsize(self, byteop=False, allow16=True, force64=False):
@@ -222,6 +233,10 @@ class Gen(object):
         if byteop:
             return 8, False, False
         k = self.r.random()
+        if self.ia32:
+            if force64:
+                raise NotInMode()
+            return (16, True, False) if (allow16 and k < 0.4) else (32, False, False)
         if force64 or k < 0.35:
             return 64, False, True
         if allow16 and k < 0.55:
@@ -232,11 +247,11 @@ class Gen(object):
         """build ModRM(+SIB+disp).  regfield: /digit or None (then a register is chosen → returned).
         mem: True force memory, False force register, None either.  returns (rexR, rexX, rexB, bytes, info)"""
         r = self.r
-        reg = regfield if regfield is not None else (regnum if regnum is not None else r.randrange(16))
+        reg = regfield if regfield is not None else (regnum if regnum is not None else r.randrange(self.nreg))
         rexR = (reg >> 3) & 1 if regfield is None else 0
         use_mem = mem if mem is not None else (r.random() < 0.45)
         if not use_mem:
-            rm = r.randrange(16)
+            rm = r.randrange(self.nreg)
             return rexR, 0, (rm >> 3) & 1, bytes([0xC0 | ((reg & 7) << 3) | (rm & 7)]), {"rm": ("reg", rm), "reg": reg}
         # memory form; effective address steered into the window
         nbytes = max(size // 8, 1)
@@ -244,7 +259,9 @@ class Gen(object):
         if r.random() < 0.6:
             target &= ~7
         form = r.choice(["base", "base", "disp8", "disp32", "sib", "sib", "abs", "rip"])
-        addr32 = r.random() < 0.12 and form not in ("rip",)
+        if self.ia32 and form == "rip":
+            form = "abs"
+        addr32 = r.random() < 0.12 and form not in ("rip",) and not self.ia32
         e.addr32 = addr32
         amask = 0xFFFFFFFF if addr32 else M64
         info = {"rm": ("mem", target, nbytes), "reg": reg}
@@ -255,10 +272,10 @@ class Gen(object):
         if form == "rip":
             info["rip"] = target
             return rexR, 0, 0, bytes([((reg & 7) << 3) | 5]) + b"RIP!", info     # patched once the length is known
-        base = r.choice([b for b in range(16) if b not in forbidden])
+        base = r.choice([b for b in range(self.nreg) if b not in forbidden])
         garbage = (r.getrandbits(32) << 32) if addr32 else 0
         if form == "sib" or (base & 7) == 4:
-            index = r.choice([x for x in range(16) if x not in forbidden and x != base])
+            index = r.choice([x for x in range(self.nreg) if x not in forbidden and x != base])
             scale = r.randrange(4)
             disp = r.choice([0, 8, -8, 0x7F, -0x80]) if r.random() < 0.5 else 0
             iv = r.choice([0, 1, 2, 3, 8, 0x10, 0x20])
@@ -285,7 +302,9 @@ class Gen(object):
     def assemble(self, e, opcode, modrm=None, imm=b"", p66=False, rexw=False, rex=(0, 0, 0), pre=b"", byteregs=(), force_rex=False):
         """prefixes + REX + opcode + modrm + imm ; byteregs: register numbers used as 8-bit operands"""
         rexR, rexX, rexB = rex
-        need_rex = rexw or rexR or rexX or rexB or force_rex
+        need_rex = (rexw or rexR or rexX or rexB or force_rex) and not self.ia32
+        if self.ia32 and (rexw or rexR or rexX or rexB):
+            raise NotInMode()
         # 8-bit registers 4..7 mean ah/ch/dh/bh without REX and spl/bpl/sil/dil with one
         e.high8 = [b for b in byteregs if 4 <= b <= 7 and not need_rex]
         body = b""
@@ -312,7 +331,10 @@ class Gen(object):
         r = self.r
         t = r.choice(self.templates())
         for _ in range(20):
-            e = t()
+            try:
+                e = t()
+            except NotInMode:
+                return None
             if e is not None and 0 < len(e.code) <= 15:
                 return e
         return None
@@ -419,7 +441,7 @@ class Gen(object):
             n = 1 if form == "C6" else (2 if size == 16 else 4)
             br = [info["rm"][1]] if form == "C6" and info["rm"][0] == "reg" else []
             return self.assemble(e, bytes([int(form, 16)]), body, imm_bytes(self.r, n), p66=p66, rexw=w, rex=rex, byteregs=br)
-        reg = self.r.randrange(16)
+        reg = self.r.randrange(self.nreg)
         if form == "B0":
             e.size = 8
             return self.assemble(e, bytes([0xB0 + (reg & 7)]), None, imm_bytes(self.r, 1), rex=(0, 0, reg >> 3), byteregs=[reg])
@@ -437,6 +459,8 @@ class Gen(object):
         form = self.r.choice(["0FB6", "0FB7", "0FBE", "0FBF", "63"])
         e = Enc({"0FB6": "MOVZX", "0FB7": "MOVZX", "0FBE": "MOVSX", "0FBF": "MOVSX", "63": "MOVSXD"}[form])
         if form == "63":
+            if self.ia32:
+                raise NotInMode()
             size, p66, w = 64, False, True
             src = 32
         else:
@@ -449,7 +473,7 @@ class Gen(object):
 
     def t_xchg(self):
         if self.r.random() < 0.3:
-            reg = self.r.randrange(1, 16)
+            reg = self.r.randrange(1, self.nreg)
             size, p66, w = self.opsize()
             e = Enc("XCHG"); e.size = size
             return self.assemble(e, bytes([0x90 + (reg & 7)]), None, p66=p66, rexw=w, rex=(0, 0, reg >> 3))
@@ -461,10 +485,12 @@ class Gen(object):
         return self.assemble(e, bytes([0x86 if byteop else 0x87]), body, p66=p66, rexw=w, rex=rex, byteregs=br)
 
     def t_pushpop(self):
+        if self.ia32:
+            raise NotInMode()           # stack width differs between the modes
         form = self.r.choice(["50", "58", "6A", "68", "FF6", "8F0"])
         e = Enc("PUSH" if form in ("50", "6A", "68", "FF6") else "POP"); e.size = 64
         if form in ("50", "58"):
-            reg = self.r.randrange(16)
+            reg = self.r.randrange(self.nreg)
             return self.assemble(e, bytes([int(form, 16) + (reg & 7)]), None, rex=(0, 0, reg >> 3))
         if form == "6A":
             return self.assemble(e, b"\x6A", None, imm_bytes(self.r, 1))
@@ -516,8 +542,8 @@ class Gen(object):
         return self.assemble(e, bytes([0x0F, 0x90 + cc]), body, rex=rex, byteregs=br, force_rex=self.r.random() < 0.3)
 
     def t_bswap(self):
-        reg = self.r.randrange(16)
-        w = self.r.random() < 0.5
+        reg = self.r.randrange(self.nreg)
+        w = self.r.random() < 0.5 and not self.ia32
         e = Enc("BSWAP"); e.size = 64 if w else 32
         return self.assemble(e, bytes([0x0F, 0xC8 + (reg & 7)]), None, rexw=w, rex=(0, 0, reg >> 3))
 
@@ -614,13 +640,15 @@ class Gen(object):
             rex, body, info = self._rm(e, 0, 32)
             return self.assemble(e, b"\x0F\x1F", body, rex=rex)
         if k == "LEAVE":
+            if self.ia32:
+                raise NotInMode()
             e = Enc("LEAVE"); e.size = 64
             e.steer.append((5, (WIN_ADDR + 0x400 + 8 * self.r.randrange(0x40))))
             return self.assemble(e, b"\xC9", None)
         if k in ("ADCX", "ADOX"):
             if not self.have.get("adx"):
                 return None
-            w = self.r.random() < 0.5
+            w = self.r.random() < 0.5 and not self.ia32
             e = Enc(k); e.size = 64 if w else 32
             rex, body, info = self._rm(e, None, e.size)
             return self.assemble(e, b"\x0F\x38\xF6", body, rexw=w, rex=rex, pre=b"\x66" if k == "ADCX" else b"\xF3")
@@ -707,43 +735,55 @@ def native_part(ck, tier, r):
         return
     have = {k: host_has(k) for k in ("popcnt", "bmi1", "abm", "adx", "movbe")}
     ck.cov["x86_host_features"] = have
-    g = Gen(r, have)
-    n = 1500 if quick else 60000
+    native_stream(ck, nat, Gen(r, have), "x64", 1500 if quick else 60000, r)
+    # the IA-32 forms whose bytes and meaning are the same in both modes, through amoco's x86 (32-bit) decoder/semantics
+    native_stream(ck, nat, Gen(r, have, ia32=True), "x86", 700 if quick else 30000, r)
+    ck.cov["x86_native_restarts"] = nat.restarts
+    nat.close()
+
+
+def native_stream(ck, nat, g, mode, n, r):
+    nregs_cmp = 16 if mode == "x64" else 8
     for _ in range(n):
         e = g.pick()
         if e is None:
             continue
         regs = gen_regs(r, e)
+        if mode == "x86":
+            regs = [v & 0xFFFFFFFF for v in regs]
         flags = gen_flags(r, e)
         mem = bytes(r.getrandbits(8) for _ in range(256)) * (WIN // 256)
         st, nregs, nflags, nmem = nat.run(e.code, regs, flags, mem)
         if st != 0:
-            ck.count("x86.native-fault(skipped)")
+            ck.count("%s.native-fault(skipped)" % mode)
             continue
-        i = amoco_decode(e.code)
-        case = {"code": e.code.hex(), "template": e.name, "size": e.size, "regs": ["%x" % v for v in regs], "rflags": "%x" % flags,
+        if mode == "x86" and any(v >> 32 for v in nregs[:8]):
+            ck.count("x86.mode-dependent-result(skipped)")
+            continue
+        i = amoco_decode(e.code, mode)
+        case = {"mode": mode, "code": e.code.hex(), "template": e.name, "size": e.size, "regs": ["%x" % v for v in regs], "rflags": "%x" % flags,
                 "mem_pattern": mem[:256].hex()}
-        sig = "C06:x64:%s:" % e.name
-        ck.count("x86." + e.name)
+        sig = "C06:%s:%s:" % (mode, e.name)
+        ck.count("%s.%s" % (mode, e.name))
         if i is None or isinstance(i, str) or i.length != len(e.code):
             what = "not-decoded" if i is None else (i if isinstance(i, str) else "decoded-length")
             if getattr(e, "addr32", False) and what == "decoded-length":
                 sig, what = "C06:x64:", "addr32-prefix-67:decoded-length"
-            ck.case(("x86", e.code, tuple(regs), flags), nontrivial=True)
-            ck.report(sig + what, "x64 %s (%s): amoco %s; the CPU executes it" % (e.name, e.code.hex(), what), "oracle",
+            ck.case((mode, e.code, tuple(regs), flags), nontrivial=True)
+            ck.report(sig + what, "%s %s (%s): amoco %s; the CPU executes it" % (mode, e.name, e.code.hex(), what), "oracle",
                       "oracle native CPU (instruction bodies are not modelled)", case=case, real=what,
                       expected={"regs": ["%x" % v for v in nregs], "rflags": "%x" % nflags})
             continue
-        real = amoco_run(i, regs, flags, mem)
-        ck.case(("x86", e.code, tuple(regs), flags), nontrivial=True)
+        real = amoco_run(i, regs, flags, mem, mode)
+        ck.case((mode, e.code, tuple(regs), flags), nontrivial=True)
         if "raise" in real:
-            ck.report(sig + "raise:" + real["raise"], "x64 %s (%s, %s): instruction(mapper) raises %s" % (e.name, e.code.hex(), i, real["raise"]),
+            ck.report(sig + "raise:" + real["raise"], "%s %s (%s, %s): instruction(mapper) raises %s" % (mode, e.name, e.code.hex(), i, real["raise"]),
                       "oracle", "oracle native CPU", case=case, real=real, expected={"regs": ["%x" % v for v in nregs], "rflags": "%x" % nflags})
             continue
         und = undefined_flags(e, regs)
         nf = flags_of(nflags)
         asp = []
-        for k in range(16):
+        for k in range(nregs_cmp):
             if real["regs"][k] != nregs[k]:
                 if getattr(e, "dest_undef_if_zero", False) and nf["zf"] == 1:
                     continue            # BSF/BSR with a zero source: destination undefined
@@ -759,21 +799,19 @@ def native_part(ck, tier, r):
             asp.append(("rip", "value"))
         if real["mem"] != nmem or real["bad_mem"]:
             asp.append(("mem", "sym" if real["bad_mem"] else "value"))
-        if len(ck.cov["samples"]) < 6 and e.name in ("ADC", "SHL", "CMOVL", "MOVSX"):
-            ck.sample({"x86": case, "decoded": str(i), "agree": not asp})
+        if len(ck.cov["samples"]) < 8 and e.name in ("ADC", "SHL", "CMOVL", "MOVSX", "SBB"):
+            ck.sample({mode: case, "decoded": str(i), "agree": not asp})
         seen = set()
         for what, kind in asp:
             key = what if kind == "value" else "%s:%s" % (what, kind)
             if key in seen:
                 continue
             seen.add(key)
-            ck.report(sig + key, "x64 %s (%s = %s): %s differs from the CPU (amoco %s, CPU %s)" %
-                      (e.name, e.code.hex(), i, what, summary(real, what), summary_native(nregs, nf, what)),
+            ck.report(sig + key, "%s %s (%s = %s): %s differs from the CPU (amoco %s, CPU %s)" %
+                      (mode, e.name, e.code.hex(), i, what, summary(real, what), summary_native(nregs, nf, what)),
                       "oracle", "oracle native CPU (instruction bodies are not modelled)", case=case,
                       real={"regs": [hx(v) for v in real["regs"]], "flags": real["flags"], "rip": hx(real["rip"])},
                       expected={"regs": ["%x" % v for v in nregs], "flags": nf, "undefined": sorted(und)})
-    ck.cov["x86_native_restarts"] = nat.restarts
-    nat.close()
 
 
 def hx(v):
